@@ -11,11 +11,11 @@ CHECKS = {
  'C01': dict(technique=SEQ, ref='6.1',
              text='Solver decides, for every 64-bit parameter value: (a) one arbitrary operation (add, re-add, match entry, an arbitrary later loop iteration, cancel, the three amend kinds, price move) from an ARBITRARY level state with <=N resting orders and <=K tickets preserves "aggregates == sums over the orders the level owns" - match_order is cut at its loop head, so any number of iterations and any history length follow by induction; (b) every history of depth D from an empty level keeps the equality after every step, and no overflow panic is reachable. Bounded by N,K,D (evidence); not a proof. Rebuild-from-snapshot paths are checked under C10.'),
  'C02': dict(technique=SEQ + '; add_transaction also by Kani/CBMC', ref='6.2', engine='E-MIR+E-KANI',
-             text='Every match request in every history of depth D, one match (<=L iterations) from an arbitrary level state, and ONE loop iteration from an arbitrary loop-head state (accounting invariant assumed and re-established, so any number of iterations is covered by induction) are checked against: executed+remaining==requested, is_complete, every transaction (positive, level price, taker id, maker resting, opposite side), filled ids == makers that traded and left, per-order fills+remainder <= held quantity (inductive form of the lifetime bound), transaction ids pairwise distinct (UUIDv5 injectivity assumed). add_transaction decided by two engines.'),
+             text='Every match request in every history of depth D, one match (<=L iterations) from an arbitrary level state, and ONE loop iteration from an arbitrary loop-head state (accounting invariant assumed and re-established, so any number of iterations is covered by induction) are checked against: executed+remaining==requested, is_complete, every transaction (positive, level price, taker id, maker resting, opposite side), filled ids == makers that traded and left, per-order fills+remainder <= held quantity (inductive form of the lifetime bound), an order handed back by an update or reported as filled never trades again in the history, transaction ids pairwise distinct (UUIDv5 injectivity assumed). add_transaction decided by two engines.'),
  'C03': dict(technique=CONC, ref='6.3',
              text='Two threads x one operation (add/match/cancel/quantity-amend) on an arbitrary level state; for every well-nested interleaving the solver decides aggregates==sums at quiescence and per-order executed+cancelled+resting (<)= supplied. Crossing overlaps, >2 threads, >1 op per thread are outside the bound.'),
  'C04': dict(technique=SEQ + '; ghost arrival ranks and a link invariant to the ticket queue; queue-position violations confirmed by a draining match on the real crate', ref='6.4',
-             text='Time priority as an inductive invariant J (earlier arrival rank => reached first by the ticket queue): every operation from an arbitrary state satisfying J must trade against the earliest displaying order and re-establish J for the ranks the statement prescribes; match sizes from 0; cube I (arbitrary later iteration) starts with up to two set-aside makers; a sweep cube (whole call, <= L iterations) checks that makers passed over without a trade keep their relative order and that a replenished maker goes to the back. Counterexamples are confirmed by the whole first-trade order of a draining match on the real crate (plain, and after zero-display orders are amended to a display). Two recorded known findings (partial fill re-queued at tail; stale ticket keeps old position) are reported as KNOWN-FINDING; the tolerant obligations (statement minus those two deviations) must be unsat.'),
+             text='Time priority as an inductive invariant J (earlier arrival rank => reached first by the ticket queue): every operation from an arbitrary state satisfying J must trade against the earliest displaying order and re-establish J for the ranks the statement prescribes; match sizes from 0; the taker id ranges over a fresh id and the resting ids; cube I (arbitrary later iteration) starts with up to two set-aside makers; a sweep cube (whole call, <= L iterations) checks that makers passed over without a trade keep their relative order and that a replenished maker goes to the back. Counterexamples are confirmed by the whole first-trade order of a draining match on the real crate (plain, and after zero-display orders are amended to a display). Two recorded known findings (partial fill re-queued at tail; stale ticket keeps old position) are reported as KNOWN-FINDING; the tolerant obligations (statement minus those two deviations) must be unsat.'),
  'C05': dict(technique='symbolic execution of match_against by two encoders (own MIR->SMT and Kani/CBMC) against the rule set of the statement, full 64-bit', ref='6.5', engine='E-MIR+E-KANI',
              text='match_against is loop-free: both engines decide every rule of the statement for every order of every variant and every incoming quantity at full width; the only bound is the machine word. Vacuity witnesses are replayed on the real crate.'),
  'C06': dict(technique=SEQ + '; termination by a solver-checked progress lemma on one loop iteration', ref='6.6',
@@ -31,11 +31,11 @@ CHECKS = {
  'C11': dict(technique='two-run bounded symbolic execution of the crate MIR -> SMT (original vs snapshot-restored copy of an arbitrary level state, same continuation); both runs replayed on the real crate', ref='6.11',
              text='The same continuation (one match of <= L iterations; thorough: cancel + match) on an ARBITRARY level state and on its from_snapshot(snapshot()) copy must give the same maker sequence (N=3 resting orders, order prices in {P, P+1}). Recorded known finding C11/snapshot-lists-by-timestamp; the tolerant obligation (same result wherever timestamp order is the queue order) must be unsat.'),
  'C19': dict(technique='bounded symbolic execution of the crate MIR -> SMT: one fully symbolic history of D queue calls (kind, id, order symbolic per step) against a reference FIFO; models replayed on the real crate', ref='6.19',
-             text='PARTIAL (API semantics and list constructors): pop/find/remove/len/is_empty/to_vec of OrderQueue against a reference FIFO-with-removal for every history of D calls over 3 ids; from_vec / From<Vec> contain exactly the listed orders in list order. Recorded known finding C19/repush-inherits-stale-ticket. Text / JSON construction outside (codec machinery).'),
+             text='PARTIAL (API semantics and list constructors): pop/find/remove/len/is_empty/to_vec of OrderQueue against a reference FIFO-with-removal for every history of D calls over the ids Uuid(1), Uuid(2), Ulid(1) (two id formats, two different ids sharing their 128-bit value); from_vec / From<Vec> contain exactly the listed orders in list order. Recorded known finding C19/repush-inherits-stale-ticket. Text / JSON construction outside (codec machinery).'),
  'C12': dict(technique=CONC + '; monitor asserted before every shared-memory step', ref='6.12',
              text='A reader stopped before every shared-memory step of either writer (and at quiescence) must see visible, hidden <= total ever supplied and count <= orders ever added, for every well-nested two-writer schedule from an arbitrary level state.'),
  'C13': dict(technique=CONC, ref='6.13',
-             text='Cancel / quantity-amend acknowledgements in two-thread programs: success means out of the book and nothing of the order executed or handed out twice; not-found although the order rests before and after is the recorded known finding C13/not-found-while-held (printed as KNOWN-FINDING after replay under the schedule).'),
+             text='Cancel / quantity-amend acknowledgements in two-thread programs: success means out of the book and nothing of the order executed or handed out twice; not-found although the order rests before and after is the recorded known finding C13/not-found-while-held (printed as KNOWN-FINDING after replay under the schedule); in the sequential placements (the other thread ran to completion first) not-found is accepted only if the other thread reports the order as filled or handed back, or match_against lets it leave silently.'),
  'C14': dict(technique=CONC + '; UUIDv5 as an uninterpreted injective function', ref='6.14',
              text='2 threads x N calls of UuidGenerator::next from an arbitrary counter value and namespace: ids pairwise different for every well-nested schedule; a match racing next() on the same generator (transaction id vs issued id); two generators with equal namespace issue equal sequences (4 calls).'),
  'C15': dict(technique=SEQ + '; concurrent half: ' + CONC, ref='6.15',
